@@ -277,6 +277,14 @@ def batch_cases():
     cases.append(("case", setup(["sock"]) + ["start read 0 4 10", "depth 32", "start write 0 4 20", "depth 0", "pollone", "peer 0 data 4", "pollone", "pollone"]))
     cases.append(("case", setup(["sock"]) + ["start read 0 4 10", "depth 32", "start write 0 4 20", "depth 0", "cancel 0", "pollone"]))
     cases.append(("case", setup(["sock"]) + ["start read 0 4 10", "depth 32", "start write 0 4 20", "depth 0", "close 0", "pollone"]))
+    # ... and the completion of one direction closes / cancels / re-arms the object while the other is still owed: after the
+    # Close inside the first callback nothing of the object may run (top-level Cancel, and both ready in one batch)
+    for who, prog in ((10, "close 0"), (20, "close 0"), (10, "cancel 0"), (20, "cancel 0"), (10, "close 0 ; post 40"),
+                      (10, "cancel 0 ; close 0"), (10, "start read 0 4 11")):
+        both = setup(["sock"]) + ["prog %d %s" % (who, prog), "start read 0 4 10", "depth 32", "start write 0 4 20", "depth 0"]
+        cases.append(("case", both + ["cancel 0", "pollone", "close 0"]))
+        cases.append(("case", both + ["peer 0 data 4", "pollone", "pollone", "cancel 0", "close 0"]))
+        cases.append(("case", both + ["pollone", "cancel 0", "pollone", "close 0"]))
     # the descriptor is closed underneath an object (and its number reused by something that cannot be polled): registrations
     # fail while the other direction is in flight; nothing may stay counted once the object is cancelled or closed
     for tail in (["close 0"], ["cancel 0", "close 0"], ["pollone", "close 0"]):
